@@ -237,3 +237,51 @@ func ruleC13R4(c *Ctx) {
 		c.check(ok, "C13.R4", fn, "a nil error is returned only for strings that passed the shape test", r.Pos(), "len(t) >= 19 holds at the success return", "a string that fails the shape test can be reported as parsed")
 	}
 }
+
+// ---------------------------------------------------------------------------
+// C09.R3: the PRI arithmetic indexes its two tables in bounds for every PRI value, and all other index/slice
+// expressions of the syslog parser are proved (no reviewed exceptions)
+
+func init() {
+	register("C09", "C09.R3", ruleC09R3)
+}
+
+func ruleC09R3(c *Ctx) {
+	var fns []*ssa.Function
+	for _, fn := range c.P.universe {
+		p := relPkg(fnPkgPath(fn))
+		if (p == "input/syslogparser" || p == "input/syslogprotocol") && fn.Blocks != nil && !strings.HasPrefix(fn.Name(), "init") {
+			fns = append(fns, fn)
+		}
+	}
+	c.floor("C09.R3", "functions of the syslog parser packages", len(fns), 5)
+	pr := c.f6()
+	res := classifyF6(c, pr, fns)
+	tables := 0
+	for _, r := range res {
+		construct := fmt.Sprintf("%s %s", r.O.Kind, canonOblig(r.O))
+		base := canonOf(r.O.X)
+		isTable := strings.Contains(base, "FacilityNames") || strings.Contains(base, "levelMapping")
+		if isTable && isAnchor(r.Fn, "input/syslogparser.(*syslogParser).Parse") {
+			tables++
+		}
+		switch r.Cls {
+		case "A":
+			c.ok("C09.R3", r.Fn, construct, r.O.In.Pos(), "bounds check eliminated by the compiler's prove pass")
+		case "B":
+			why := "proved by the facts engine"
+			if len(r.Used) > 0 {
+				why += "; relies on: " + strings.Join(r.Used, "; ")
+			}
+			c.ok("C09.R3", r.Fn, construct, r.O.In.Pos(), why)
+		default:
+			msg := r.Why + ": some header makes this access panic"
+			if isTable {
+				msg = r.Why + ": some PRI value indexes the table out of range (facility = pri>>3 must be tested against the table's length, severity = pri&7 needs a table of 8 entries established by NewParser)"
+			}
+			c.bad("C09.R3", r.Fn, construct, r.O.In.Pos(), msg)
+		}
+	}
+	c.floor("C09.R3", "table lookups by facility / severity in Parse", tables, 2)
+	c.floor("C09.R3", "index/slice expressions of the parser", len(res), 15)
+}
